@@ -720,6 +720,7 @@ void File::uncompressedFile2ReadWriteQueue() {
         return;
     }
 
+    const std::streampos objectStart = m_uncompressedFile.tellg();
     int32_t tmp = 0;
     if (obj->calculateObjectSize() > ohb.objectSize) {
         // we are about to read too much data
@@ -734,6 +735,11 @@ void File::uncompressedFile2ReadWriteQueue() {
     }
 
     if (tmp!=0) {
+        /* never move back to (or before) the start of this very object: a corrupt size would be parsed for ever */
+        if (m_uncompressedFile.tellg() + static_cast<std::streamoff>(tmp) <= objectStart) {
+            delete obj;
+            throw Exception("File::uncompressedFile2ReadWriteQueue(): Object size smaller than object.");
+        }
         m_uncompressedFile.seekg(tmp);
     }
 
